@@ -25,6 +25,8 @@ type C08Case struct {
 	BufSrc  int      `json:"buf_src"`
 	Reads   []int    `json:"reads"`
 	Reuse   bool     `json:"reuse,omitempty"`
+	CutMember int    `json:"cut_member,omitempty"` // 1-based: the source delivers its bytes with a chunk boundary at (end of that member's DEFLATE data)+CutRel
+	CutRel    int    `json:"cut_rel,omitempty"`
 	Detour  bool     `json:"detour,omitempty"` // mode B: between two members the Reader is Reset onto an unrelated plain source and drained, then back onto the shared buffered source // all members written by ONE gzip Writer, Reset between members
 }
 
@@ -47,6 +49,23 @@ func drawC08(t *rapid.T) C08Case {
 		kind := rapid.SampledFrom([]string{"text", "rand", "run", "period"}).Draw(t, "bigkind")
 		c.Members[i].Data = gen.Recipe{Segs: []gen.Seg{{Kind: kind, N: size, A: 7, Seed: uint64(size)}}}
 		c.Members[i].Ops = nil
+		if rapid.Bool().Draw(t, "rawfinalstored") {
+			// the member's body ends in a FINAL STORED block that carries data, placed so that the 64 KiB
+			// output window fills k bytes before the member's end: those k bytes are then taken out of
+			// the bit buffer / the look-ahead, and the trailer must be found right behind them
+			k := rapid.SampledFrom([]int{0, 1, 1, 2, 2, 3, 3, 4, 5, 7, 8, 9, 40}).Draw(t, "rawk")
+			c.Members[i].Data = gen.Recipe{Segs: []gen.Seg{{Kind: kind, N: rapid.SampledFrom([]int{65536, 65536, 131072, 196608}).Draw(t, "rawwin") + k, A: 7, Seed: uint64(size)}}}
+			c.Members[i].Enc = "raw"
+			c.Members[i].Level = rapid.SampledFrom([]int{k, k, k + 1, k + 5, 300, 65535}).Draw(t, "rawtail")
+			if c.Members[i].Level == 0 {
+				c.Members[i].Level = 1
+			}
+			if rapid.Bool().Draw(t, "rawprefixcompressed") {
+				c.Members[i].Ops = make([]gen.Op, rapid.IntRange(1, 9).Draw(t, "rawlevel"))
+			}
+			c.CutMember = i + 1
+			c.CutRel = rapid.IntRange(-9, 9).Draw(t, "cutrel")
+		}
 	}
 	c.Mode = rapid.SampledFrom([]string{"A", "B", "B"}).Draw(t, "mode")
 	if c.Mode == "B" && rapid.Bool().Draw(t, "hastrail") {
@@ -66,7 +85,10 @@ func drawC08(t *rapid.T) C08Case {
 	}
 	c.BufSrc = rapid.SampledFrom([]int{16, 17, 64, 512, 4096, 4097, 65536}).Draw(t, "bufsrc")
 	c.Detour = c.Mode == "B" && rapid.IntRange(0, 2).Draw(t, "detour") == 0
-	if rapid.IntRange(0, 2).Draw(t, "reusewriter") == 0 {
+	if c.CutMember != 0 && rapid.Bool().Draw(t, "bigbufio") {
+		c.BufSrc = 1 << 20 // everything up to the cut arrives in one piece
+	}
+	if c.CutMember == 0 && rapid.IntRange(0, 2).Draw(t, "reusewriter") == 0 {
 		c.Reuse = true
 		for i := range c.Members {
 			c.Members[i].Enc, c.Members[i].Level = c.Members[0].Enc, c.Members[0].Level
@@ -90,7 +112,7 @@ func checkC08(c C08Case) (labels []string, nontrivial bool, err error) {
 	}
 	all := append(append([]byte(nil), z...), c.Trail...)
 	if c.Mode == "A" {
-		src := newBufio(bytes.NewReader(z), c.BufSrc)
+		src := newBufio(cutSource(bytes.NewReader(z), c.cutPos(bounds)), c.BufSrc)
 		r, e := fgzip.NewReader(src)
 		if e != nil {
 			return nil, false, fmt.Errorf("NewReader on %d concatenated members: %v", len(c.Members), e)
@@ -118,7 +140,7 @@ func checkC08(c C08Case) (labels []string, nontrivial bool, err error) {
 		}
 	} else {
 		under := bytes.NewReader(all)
-		src := newBufio(under, c.BufSrc)
+		src := newBufio(cutSource(under, c.cutPos(bounds)), c.BufSrc)
 		var r *fgzip.Reader
 		prev := 0
 		for i, m := range c.Members {
@@ -191,6 +213,9 @@ func checkC08(c C08Case) (labels []string, nontrivial bool, err error) {
 	if len(c.Trail) > 0 {
 		labels = append(labels, "trailing-data")
 	}
+	if c.CutMember != 0 {
+		labels = append(labels, "member-ends-in-final-stored-block-with-data", "source-chunk-boundary-near-member-end")
+	}
 	if c.Reuse {
 		labels = append(labels, "members-written-by-one-reused-writer")
 	}
@@ -259,4 +284,40 @@ func buildMembersReused(ms []Member) (z []byte, bounds []int, payload []byte, er
 		payload = append(payload, m.Data.Bytes()...)
 	}
 	return
+}
+
+
+// cutPos is the absolute offset of the requested chunk boundary (0 = none).
+func (c C08Case) cutPos(bounds []int) int {
+	if c.CutMember <= 0 || c.CutMember > len(bounds) {
+		return 0
+	}
+	p := bounds[c.CutMember-1] - 8 + c.CutRel
+	if p < 1 {
+		return 0
+	}
+	return p
+}
+
+// cutReader delivers the bytes of r unchanged, but never lets one Read cross offset cut.
+type cutReader struct {
+	r   *bytes.Reader
+	cut int
+	pos int
+}
+
+func cutSource(r *bytes.Reader, cut int) io.Reader {
+	if cut <= 0 {
+		return r
+	}
+	return &cutReader{r: r, cut: cut}
+}
+
+func (c *cutReader) Read(p []byte) (int, error) {
+	if c.pos < c.cut && len(p) > c.cut-c.pos {
+		p = p[:c.cut-c.pos]
+	}
+	n, err := c.r.Read(p)
+	c.pos += n
+	return n, err
 }
